@@ -16,7 +16,7 @@ OUTSIDE = ["EPA / MPR penetration (C07/C08) under motion", "Boolean tests (their
            "returned points (only scalar outputs are compared: optima are not unique on the degenerate placements the sweeps pass through)", "smooth colliders", "rounding"]
 BOUNDS = {"quick": "per distance function 1 base pair x 3 sweeps x {swap (where the signature allows), 2 rigid motions from the 24 signed permutations x dyadic translations up to 1e3, uniform scale s symbolic in [1e-2,1e2]}; GJK: 4 polytope pairs x 2 sweeps x {swap, motion}",
           "thorough": "all corpus pairs and sweeps"}
-WALL_BUDGET = {"quick": 420, "thorough": 900}
+WALL_BUDGET = {"quick": 300, "thorough": 600}
 EXPECTED_EXCEPTIONS = ()
 ASSUMPTIONS = ["distance functions: direction cosines between the primitives' axes/normals/edges are not strictly inside (0,1e-2) of 0 or 1 (the epsilon bands excluded by C11: the value is not the true distance there)"]
 
